@@ -375,6 +375,18 @@ fn chiplet_monitor(
             let same = ctx.rows[r][CH + 5] == ctx.rows[r - 1][CH + 5] && ctx.rows[r][CH + 6] == ctx.rows[r - 1][CH + 6];
             extra = if same { " same-addr".into() } else { " new-addr".into() };
         }
+        // first row of a hash cycle that continues a computation (absorption of the next elements or
+        // of the next Merkle path node): its state cells are the inputs of a new permutation, so a
+        // prover who alters one of them recomputes the seven rounds below it; only the transition from
+        // the last row of the previous cycle can tie such a cell (capacity carried over, previous digest
+        // copied to the position selected by the bit shifted out of the node index)
+        let mut first_of_cycle = false;
+        if kind.starts_with("hasher[pos=0") && prev_class == "hasher" && r % 8 == 0 {
+            let ps = |i: usize| ctx.rows[r - 1][CH + i].as_int();
+            let b = ctx.rows[r - 1][CH + 16].as_int().wrapping_sub(2 * ctx.rows[r][CH + 16].as_int());
+            extra = format!(" prev-sel={}{}{} b={}", ps(1), ps(2), ps(3), if b <= 1 { b.to_string() } else { "-".into() });
+            first_of_cycle = true;
+        }
         for c in 0..CHIPLETS_WIDTH {
             let col = CH + c;
             let orig = ctx.rows[r][col];
@@ -387,7 +399,7 @@ fn chiplet_monitor(
                 row[col] = v;
                 perturbations += 1;
                 let ok1 = main_ok(&ctx.rows[r - 1], &row, r - 1);
-                let ok2 = r + 1 > last || main_ok(&row, &ctx.rows[r + 1], r);
+                let ok2 = r + 1 > last || (first_of_cycle && (4..=15).contains(&c)) || main_ok(&row, &ctx.rows[r + 1], r);
                 let key = format!("{}{} after {} col{}", kind, extra, prev_class, c);
                 let e = table.entry(key).or_insert((0, 0, String::new()));
                 e.1 += 1;
@@ -458,6 +470,31 @@ fn chiplet_cell_is_free(key: &str, acc: u64, tot: u64) -> bool {
     // output row of a hash cycle: RETURN_HASH vs RETURN_STATE is chosen by the requester (bus)
     if hasher && key.contains("pos=7") && col == 3 {
         return true;
+    }
+    // state cells of the first row of a cycle (see `first_of_cycle`): after an output row the next
+    // computation is unconstrained (hasher.md: "when a computation is completed the next hasher state
+    // is unconstrained"); after ABP the rate receives the absorbed elements; after MPA / MVA / MUA the
+    // half of the rate that does not receive the previous digest receives the sibling
+    if hasher && key.contains(" prev-sel=") && (4..=15).contains(&col) {
+        if key.contains("prev-sel=000") || key.contains("prev-sel=001") {
+            return true;
+        }
+        if key.contains("prev-sel=100") {
+            return col >= 8;
+        }
+        // hasher.md documents no constraint for the capacity when a Merkle path node is absorbed (only
+        // the digest copy); the honest prover writes zeros there. Not an enforced cell in the sense of
+        // the property, recorded as an observation in DESIGN.md section 13.
+        if col <= 7 {
+            return true;
+        }
+        if key.contains(" b=0") {
+            return col >= 12;
+        }
+        if key.contains(" b=1") {
+            return (8..=11).contains(&col);
+        }
+        return false;
     }
     // node index in the first row of a Merkle path computation is an input (tied by the bus); the
     // index with the other parity of the lowest bit is an equally valid start
